@@ -349,7 +349,8 @@ class Segment:
             "folder": os.path.basename(md["w_folder"]),
             "exe_dirs": sorted({os.path.basename(picked[e]["exe_dir"]) for e in md["ens_nums"]}),
             "fp_move": [fp_of(picked[e]["ens"]["rgen"]) for e in md["ens_nums"]],
-            "fp_eng": [fp_of(picked[e]["rgen-eng"]) for e in md["ens_nums"]],
+            # an ensemble without its own engine stream is reported as the null stream
+            "fp_eng": [fp_of(picked[e]["rgen-eng"]) if "rgen-eng" in picked[e] else "0" * 16 for e in md["ens_nums"]],
             "ss_move": [seedseq_of(picked[e]["ens"]["rgen"]) for e in md["ens_nums"]],
             "fp_main": fp_of(st.rgen),
             "ens_objs_distinct": len({id(picked[e]["ens"]["rgen"]) for e in md["ens_nums"]}) == len(ens),
